@@ -1,6 +1,6 @@
 #!/bin/bash
 # racepass.sh <id> [runs]: the separate free-running race-detector pass for the properties with a
-# concurrent part (C04 C05 C06 C07 C09). Under the cooperative scheduler every hand-off is a
+# concurrent part (C03 C04 C05 C06 C07 C09). Under the cooperative scheduler every hand-off is a
 # happens-before edge, so the detector is blind there; here the same scenario bodies run <runs>
 # times with plain goroutines in a -race build. Prints "RACEPASS property=<id> runs=<n> races=<k>"
 # and, for every distinct racing pair of repository frames, a line "RACE <frames>"; exit 1 iff k > 0.
